@@ -33,9 +33,12 @@ META = {
     "technique": "Coq proof over exported code-generator templates (O-tie) + differential correspondence",
 }
 
-STATIC = ["C03/LIR.v", "C03/VSL.v", "C03/ArithSpec.v", "C03/WordArith.v", "C03/TypeLemmas.v", "C03/ArithModel.v"]
-LEGACY = ["C03/GenLegacy.v", "C03/LegacyExact.v", "C03/TieLegacy.v", "C03/PropsLegacy.v"]
-VENOM = ["C03/GenVenom.v", "C03/VenomExact.v", "C03/TieVenom.v", "C03/PropsVenom.v"]
+# static part (independent of /repo): models, word lemmas, the parametric exactness theorems
+STATIC = ["C03/LIR.v", "C03/VSL.v", "C03/ArithSpec.v", "C03/WordArith.v", "C03/TypeLemmas.v", "C03/ArithModel.v",
+          "C03/TieBase.v", "C03/LegacyExact.v", "C03/VenomExact.v"]
+# regenerated templates + the ties + the property theorems about the REAL templates
+LEGACY = ["C03/GenLegacy.v", "C03/TieLegacy.v", "C03/PropsLegacy.v"]
+VENOM = ["C03/GenVenom.v", "C03/TieVenom.v", "C03/PropsVenom.v"]
 
 W = 2**256
 OPSYM = {"AAdd": "+", "ASub": "-", "AMul": "*", "ADiv": "//", "AMod": "%", "AUSub": "-"}
@@ -307,7 +310,7 @@ def run(ctx):
         (COQ / "C03" / "GenLegacy.v").write_text(text)
     except Exception as e:  # noqa
         gen_err = f"legacy export: {type(e).__name__}: {e}"
-    venom_ok = (COQ / "C03" / "VenomExact.v").exists()
+    venom_ok = True
     if venom_ok:
         try:
             text, vtempl, vclamps = X.gen_venom()
@@ -317,20 +320,9 @@ def run(ctx):
     ctx.extra["family_size"] = {"legacy_templates": len(ltempl), "venom_templates": len(vtempl), "numeric_types": 65}
 
     # ---- proofs
-    mine = [0]
-
-    def build(files):
-        before = len(ctx.obligation_names)
-        r = ctx.coq_build(files)
-        mine[0] += (len(ctx.obligation_names) - before) if r["ok"] else ctx.discharged
-        return r
-
-    b0 = build(STATIC)
-    bl = build(LEGACY) if b0["ok"] and ltempl else {"ok": False, "file": "C03/GenLegacy.v", "failed_lemma": None, "out": gen_err or ""}
-    bv = {"ok": True}
-    if venom_ok:
-        bv = build(VENOM) if b0["ok"] and vtempl else {"ok": False, "file": "C03/GenVenom.v", "failed_lemma": None, "out": gen_err or ""}
-    ctx.discharged = mine[0]
+    b0 = ctx.coq_build_cached(STATIC)          # content-keyed reuse: recompiled iff a source/Base file changed
+    bl = ctx.coq_build(LEGACY) if b0["ok"] and ltempl else {"ok": False, "file": "C03/GenLegacy.v", "failed_lemma": None, "out": gen_err or ""}
+    bv = ctx.coq_build(VENOM) if b0["ok"] and vtempl else {"ok": False, "file": "C03/GenVenom.v", "failed_lemma": None, "out": gen_err or ""}
     ctx.log(f"coq done {time.time()-t0:.0f}s legacy={bl['ok']} venom={bv['ok']}")
     if bl["ok"] and bv["ok"]:
         ctx.extra["syntactic_matches"] = len(ltempl) + len(vtempl) + 65 * (2 if venom_ok else 1)
